@@ -229,9 +229,26 @@ Definition oracle_c07 (c : case) : bool :=
   forallb (fun r => negb (lmsg_eqb (or_msg r) (LUser alien))) (o_recvs o) &&
   forallb (fun p => op_done p && negb (op_early p) && negb (op_reg_at_done p)) (o_pills o).
 
-(* C13: every delivery went through the configured chain *)
+(* C13: every delivery went through the configured chain, and inside it the
+   Context showed the sender the message was sent with: a payload sent by an
+   [ASend] action carries the actor's own PID, anything else (ASendNil,
+   external sends) carries none.  Payloads sent both ways are not judged. *)
+Definition sent_with_sender (tbl : list rule) (n : nat) : bool :=
+  existsb (fun r => existsb (fun a => match a with ASend m => Nat.eqb m n | _ => false end) (r_do r)) tbl.
+Definition sent_without_sender (tbl : list rule) (ops : list extop) (n : nat) : bool :=
+  existsb (fun r => existsb (fun a => match a with ASendNil m => Nat.eqb m n | _ => false end) (r_do r)) tbl ||
+  existsb (fun x => match x with XSend m => Nat.eqb m n | _ => false end) ops.
+Definition sender_ok (c : case) (r : orecv) : bool :=
+  match or_msg r with
+  | LUser n =>
+      let w := sent_with_sender (c_table c) n in
+      let wo := sent_without_sender (c_table c) (c_ops c) n in
+      if w && negb wo then or_snd r else if wo && negb w then negb (or_snd r) else true
+  | _ => true
+  end.
+
 Definition oracle_c13 (c : case) : bool :=
-  negb (o_hang (c_obs c)) && forallb or_full (o_recvs (c_obs c)).
+  negb (o_hang (c_obs c)) && forallb or_full (o_recvs (c_obs c)) && forallb (sender_ok c) (o_recvs (c_obs c)).
 
 Definition oracle (c : case) : bool :=
   match c_prop c with
